@@ -546,9 +546,10 @@ func guardedByValue(b *ssa.BasicBlock, match func(v ssa.Value) bool, sense bool)
 // ---------------------------------------------------------------- late-drop and timestamp gate
 
 // ruleLatePolicy: in the event-time Add of W —
-//  (a) UpdateEventTime is called only when extractTimestamp's ok result is true;
-//  (b) every dropLastRow() call, and every return reachable without the row having been stored,
-//      is dominated by IsEventTimeLate(ts)==true or by !tsOk.
+//
+//	(a) UpdateEventTime is called only when extractTimestamp's ok result is true;
+//	(b) every dropLastRow() call, and every return reachable without the row having been stored,
+//	    is dominated by IsEventTimeLate(ts)==true or by !tsOk.
 func (a *A) ruleLatePolicy(W *types.Named, add *ssa.Function) {
 	wm := a.Named("window", "Watermark")
 	upd := a.methodOf(wm, "UpdateEventTime")
@@ -902,5 +903,202 @@ func (a *A) ruleAdvanceByOne(W *types.Named, initFns map[string]string) {
 	}
 	if n == 0 {
 		a.Und(W.Obj().Name()+".currentSlot", token.NoPos, "no store to currentSlot found")
+	}
+}
+
+// ruleBufferArrivalOrder: a time window's row buffer (W.data) holds rows in arrival order, which
+// under out-of-order input is not time order. Every use of the buffer must therefore be order-blind:
+//   - a store replaces it by append(buffer, row), by a slice built element by element (a filter over
+//     all rows), by nil, or by buffer[:len-1] (removal of the row appended by the same Add call);
+//   - an element is addressed only as the element of a `for range buffer` loop, or to be overwritten.
+//
+// A positional read (buffer[0] as "the oldest row"), a binary search, or an eviction by re-slicing
+// buffer[k:] treats the buffer as sorted by time and loses or misplaces rows as soon as an accepted
+// out-of-order row sits behind a newer one. If the module itself sorts the buffer, the premise is gone
+// and the rule records that it does not apply.
+func (a *A) ruleBufferArrivalOrder(W *types.Named) {
+	dataF := a.FieldOf(W, "data")
+	wn := W.Obj().Name()
+	isBufLoad := func(v ssa.Value) bool {
+		ld, ok := v.(*ssa.UnOp)
+		if !ok || ld.Op != token.MUL {
+			return false
+		}
+		return fieldAddrIs(ld.X, dataF)
+	}
+	// premise: nobody sorts the buffer
+	for _, fn := range a.ModFuncs {
+		sorted := false
+		allInstrs(fn, func(in ssa.Instruction) {
+			cc := callCommon(in)
+			if cc == nil {
+				return
+			}
+			callee := cc.StaticCallee()
+			if callee == nil || callee.Pkg == nil {
+				return
+			}
+			if pp := callee.Pkg.Pkg.Path(); pp != "sort" && pp != "slices" {
+				return
+			}
+			if !strings.Contains(callee.Name(), "Sort") && callee.Name() != "Slice" && callee.Name() != "SliceStable" && callee.Name() != "Stable" {
+				return
+			}
+			for _, arg := range cc.Args {
+				v := arg
+				if mi, ok := v.(*ssa.MakeInterface); ok {
+					v = mi.X
+				}
+				if isBufLoad(v) {
+					sorted = true
+				}
+			}
+		})
+		if sorted {
+			a.Ok(wn+".data#premise", token.NoPos, "the buffer is sorted in %s: the arrival-order premise does not hold, positional uses are not judged by this rule", fname(fn))
+			return
+		}
+	}
+	var freshSeen map[ssa.Value]bool
+	var fresh func(v ssa.Value, depth int) bool
+	fresh = func(v ssa.Value, depth int) bool {
+		if depth == 0 {
+			freshSeen = map[ssa.Value]bool{}
+		}
+		if freshSeen[v] {
+			return true // loop-carried: judged by the other edges
+		}
+		freshSeen[v] = true
+		if depth > 12 {
+			return false
+		}
+		switch x := v.(type) {
+		case *ssa.Const:
+			return x.Value == nil
+		case *ssa.MakeSlice:
+			return true
+		case *ssa.Slice:
+			// slice of a fresh local array/slice
+			if al, ok := x.X.(*ssa.Alloc); ok {
+				_ = al
+				return true
+			}
+			return fresh(x.X, depth+1)
+		case *ssa.Phi:
+			for _, e := range x.Edges {
+				if !fresh(e, depth+1) {
+					return false
+				}
+			}
+			return true
+		case *ssa.Call:
+			if cc, ok := isBuiltinCall(x, "append"); ok {
+				return fresh(cc.Args[0], depth+1)
+			}
+		}
+		return false
+	}
+	n := 0
+	for _, fn := range a.ModFuncs {
+		if fn.Pkg == nil || fn.Pkg.Pkg.Path() != W.Obj().Pkg().Path() {
+			continue
+		}
+		loops := rangeLoops(fn)
+		allInstrs(fn, func(in ssa.Instruction) {
+			switch x := in.(type) {
+			case *ssa.Store:
+				if !fieldAddrIs(x.Addr, dataF) || isFreshObject(x.Addr.(*ssa.FieldAddr)) {
+					return
+				}
+				n++
+				construct := fmt.Sprintf("%s.data<-%s", wn, fname(fn))
+				for _, l := range phiLeaves(x.Val) {
+					switch v := l.(type) {
+					case *ssa.Const:
+						if v.Value == nil {
+							continue
+						}
+					case *ssa.Call:
+						if cc, ok := isBuiltinCall(v, "append"); ok {
+							if isBufLoad(cc.Args[0]) && len(appendedElems(cc)) == 1 {
+								continue // append(buffer, row)
+							}
+							if fresh(cc.Args[0], 0) {
+								continue // rebuilt element by element
+							}
+						}
+					case *ssa.MakeSlice:
+						continue
+					case *ssa.Slice:
+						if isBufLoad(v.X) {
+							continue // judged as a slice use below
+						}
+						if fresh(v, 0) {
+							continue
+						}
+					}
+					a.Bad(construct, x.Pos(), "the buffer is replaced by %s, which is neither append(buffer,row), a slice rebuilt element by element, nil, nor buffer[:len-1]", TermOf(l, nil).String())
+					return
+				}
+				a.Ok(construct, x.Pos(), "order-blind update of the row buffer")
+			case *ssa.Slice:
+				if !isBufLoad(x.X) {
+					return
+				}
+				n++
+				construct := fmt.Sprintf("%s.data[:]@%s", wn, fname(fn))
+				if x.Low != nil {
+					if k, ok := x.Low.(*ssa.Const); !ok || k.Int64() != 0 {
+						a.Bad(construct, x.Pos(), "the buffer is re-sliced from %s: dropping a prefix evicts by position, but rows are buffered in arrival order, so an accepted out-of-order row behind a newer one makes the prefix contain rows a later interval still needs", TermOf(x.Low, nil).String())
+						return
+					}
+				}
+				if x.High != nil {
+					okHigh := false
+					if bo, ok := x.High.(*ssa.BinOp); ok && bo.Op == token.SUB {
+						if k, ok := bo.Y.(*ssa.Const); ok && k.Int64() == 1 {
+							if c, ok := bo.X.(*ssa.Call); ok {
+								if cc, ok := isBuiltinCall(c, "len"); ok && isBufLoad(cc.Args[0]) {
+									okHigh = true
+								}
+							}
+						}
+					}
+					if !okHigh {
+						a.Bad(construct, x.Pos(), "the buffer is truncated to %s: only buffer[:len-1] (the row appended by this very Add call) is an order-blind truncation", TermOf(x.High, nil).String())
+						return
+					}
+				}
+				a.Ok(construct, x.Pos(), "buffer[:len-1] removes the row appended by this call")
+			case *ssa.IndexAddr:
+				if !isBufLoad(x.X) {
+					return
+				}
+				n++
+				construct := fmt.Sprintf("%s.data[i]@%s", wn, fname(fn))
+				for _, l := range loops {
+					if l.Blocks[x.Block()] || x.Block() == l.Body {
+						if bo, ok := x.Index.(*ssa.BinOp); ok && bo.Block() == l.Header {
+							a.Ok(construct, x.Pos(), "element of a range loop over the whole buffer")
+							return
+						}
+					}
+				}
+				onlyStores := len(*x.Referrers()) > 0
+				for _, r := range *x.Referrers() {
+					if st, ok := r.(*ssa.Store); !ok || st.Addr != ssa.Value(x) {
+						onlyStores = false
+					}
+				}
+				if onlyStores {
+					a.Ok(construct, x.Pos(), "slot overwritten, not read")
+					return
+				}
+				a.Bad(construct, x.Pos(), "the buffer is read at position %s outside a range loop: rows are buffered in arrival order, a position says nothing about a row's time", TermOf(x.Index, nil).String())
+			}
+		})
+	}
+	if n == 0 {
+		a.Und(wn+".data", token.NoPos, "no use of the row buffer found")
 	}
 }
